@@ -16,3 +16,9 @@ open XotModel.Props
 #print axioms C10_sound_tree
 #print axioms C10_sound_tree_endtag
 #print axioms C10_sound_tree_attribute
+#print axioms C10_repair_element
+#print axioms C10_repair_refused
+#print axioms C10_repair_frame
+#print axioms C10_repair_writable
+#print axioms C10_repair_fresh_prefixes
+#print axioms C10_repair_idem
